@@ -93,9 +93,12 @@ class FieldsWorld(World):
     stub_components = ("C11: field actions are mocks exposing only their FieldPort",
                        "element-port / field-port drivers (seeded agents)")
     fault_kinds = ("incompatible_access_combination", "write_and_hw_same_bit_same_cycle",
-                   "back_to_back_writes", "strobe_without_data_change", "read_and_write_same_cycle")
+                   "back_to_back_writes", "strobe_without_data_change", "read_and_write_same_cycle",
+                   "domain_reset")
     assumptions = (
         "Amaranth's Python RTL simulator executes the elaborated netlist faithfully",
+        "a reset of the clock domain returns a field to its initial state (the property's "
+        "'initial value' is the value after reset, as for every Amaranth register)",
         "no schedule matters for C11 (combinational wiring): simulation only establishes that the "
         "wiring is checked in the elaborated netlist on every generated collection shape",
     )
@@ -200,12 +203,14 @@ class FieldsWorld(World):
             w = shape_width(config["shape"])
             p_ws = rng.choice([0.2, 0.5, 0.9])
             p_hw = rng.choice([0.0, 0.3, 0.8])
+            p_rst = rng.choice([0, 0, 0, 0.03])
             prev_wd = 0
             for t in range(rng.range(30, 90)):
                 wd = prev_wd if rng.chance(0.2) else rng.bits(w)
                 ops.append({"rs": rng.below(2), "ws": int(rng.chance(p_ws)), "wd": wd,
                             "hw": rng.bits(w) & (rng.bits(w) if rng.chance(0.5) else (1 << w) - 1)
-                            if rng.chance(p_hw) or config["act"] in ("R",) else 0})
+                            if rng.chance(p_hw) or config["act"] in ("R",) else 0,
+                            "rst": int(rng.chance(p_rst))})
                 prev_wd = wd
         return ops
 
@@ -485,7 +490,15 @@ class FieldsWorld(World):
         if config.get("init") is not None and act in ("RW", "RW1C", "RW1S"):
             kw["init"] = make_init(sh, config["init"])
         a = hw.construct(cls, make_shape(sh), **kw)
-        sim = hw.build_sim(hw.make_top(a))
+        from amaranth import Value
+        for nm_ in ("r_stb", "w_stb"):
+            if hasattr(a, nm_):
+                stats.checks += 1
+                if len(Value.cast(getattr(a, nm_))) != 1:
+                    raise Violation("C12", "strobe-is-not-one-bit", 0,
+                                    f"{act}.{nm_} is {len(Value.cast(getattr(a, nm_)))} bits wide")
+        top, rst = hw.make_top_with_reset(a)
+        sim = hw.build_sim(top)
         signed = sh[0] == "s"
         stor0 = (init_value(sh, config.get("init")) & m) if act in ("RW", "RW1C", "RW1S") else 0
 
@@ -503,6 +516,8 @@ class FieldsWorld(World):
                 hwv = int(op.get("hw", 0)) & m
                 p.set(a.port.r_stb, rs)
                 p.set(a.port.w_stb, ws)
+                in_reset = int(op.get("rst") or 0) & 1
+                p.set(rst, in_reset)
                 if w:
                     p.set(a.port.w_data, sv(wd))
                     if act == "R":
@@ -576,6 +591,11 @@ class FieldsWorld(World):
                     stats.work += 1
                 hist.rec(t, obs)
                 stor = nst
+                if in_reset:
+                    # fault: the field's clock domain is reset at this edge, whatever is being
+                    # written or set: storage is back at its initial value
+                    stor = stor0
+                    stats.fault("domain_reset")
                 prev_ws, prev_wd = ws, wd
                 await ctx.tick()
             stats.cycles += len(ops)
@@ -584,7 +604,7 @@ class FieldsWorld(World):
 
     # ------------------------------------------------------------------------------------------
     def simplify_op(self, op):
-        for k in ("rs", "hw"):
+        for k in ("rs", "hw", "rst"):
             if op.get(k):
                 yield dict(op, **{k: 0})
 
